@@ -24,6 +24,9 @@ def run(ck):
     mon = window.WindowMonitor(ck)
     mons = [mon]
     base = ck.seed * 1000003 + 41
+    for r_, n_ch in enumerate((340,) if not ck.thorough() else (340, 400, 90, 341, 512)):
+        if ck.mine(r_ + 1):
+            mass_delete(ck, base + 9000 + r_, n_ch)
     for r_ in range(1 if not ck.thorough() else 24):
         if ck.mine(r_):
             long_lived(ck, mons, base + 7000 + r_, 300 if not ck.thorough() else 700)
@@ -222,8 +225,58 @@ def long_lived(ck, mons, seed, rounds):
     ck.nontrivial(('long-lived', rounds))
 
 
+def mass_delete(ck, seed, n_children):
+    """An independent peer closes HUNDREDS of CHILD_SAs of one IKE_SA with a single Delete payload (a legal request of about 1.4 KB whose answer is several
+    times longer) and then repeats that request: the copy is answered with the same octets as the first one, under the request's Message ID."""
+    from vf.ref import peer as refpeer
+    from vf.checks import c02
+    import random
+    rng = random.Random(seed)
+    kw = dict(dpd=6000, lifetime=36000, mode='tunnel', a_subnet='10.1.0.0/16', b_subnet='10.2.0.0/16', ip_proto='any', a_port=0, b_port=0)
+    sim, a, b = S.make_pair(seed, **kw)
+    sim.case = {'family': 'mass-delete', 'children': n_children}
+    pr = refpeer.Peer(S.B4, S.A4, rng, c02.ID_B, c02.PSK_B, quirks=False)
+    if not pr.establish(sim, a, saddr='10.1.0.1', daddr='10.2.0.1') or not c02.established(a):
+        ck.count('mass_delete.setup_failed')
+        return
+    for k in range(n_children - 1):
+        sim.acquire(a, 0, saddr=f'10.1.{1 + k // 250}.{1 + k % 250}', daddr='10.2.0.1', sport=1024 + k)
+        pr.serve(sim, a)
+    sa = a.ctl.ike_sas[0]
+    if len(sa.child_sas) < n_children or len(pr.children) < n_children:
+        ck.count('mass_delete.children_not_created')
+        return
+    which = list(pr.children)
+    spis = [c['my_spi'] for c in which]
+    req = pr.p.seal(37, pr.next_mid, [{'type': 42, 'critical': False, 'proto': which[0]['proto'], 'spis': spis}], False)
+    pr.next_mid += 1
+    answers = []
+    for copy_ in range(3):
+        rec = sim.inject(a, S.B4, S.A4, req)
+        got = [d.data for d in sim.net if d.dst == S.B4]
+        sim.net.clear()
+        answers.append(got)
+        if rec.died:
+            ck.violation('loop-died-on-a-delete-naming-hundreds-of-child-sas', {'exc': repr(rec.exc)[:160]}, sim.case)
+            return
+    ck.count('mass_delete.runs')
+    ck.seen('mass_delete.answer_octets', len(answers[0][0]) if answers[0] else 0)
+    ck.nontrivial(('mass-delete', n_children, len(req)))
+    if not (answers[0] == answers[1] == answers[2]):
+        ck.violation('copies-of-one-request-answered-differently:delete-naming-hundreds-of-child-sas',
+                     {'request_octets': len(req), 'answers': [[len(x) for x in g] for g in answers], 'message_ids': [[int.from_bytes(x[20:24], 'big') for x in g] for g in answers],
+                      'request_message_id': int.from_bytes(req[20:24], 'big')}, sim.case)
+    elif answers[0] and any(x[20:24] != req[20:24] for x in answers[0]):
+        ck.violation('response-message-id-differs-from-its-request:delete-naming-hundreds-of-child-sas', {}, sim.case)
+    elif len(answers[0]) != 1:
+        ck.violation('request-executed-but-never-answered:delete-naming-hundreds-of-child-sas', {'child_sas_left': len(sa.child_sas), 'answers': len(answers[0])}, sim.case)
+    else:
+        ck.count('mass_delete.copies_answered_identically')
+
+
 def verdict(ck):
     c = ck.counters
+    ck.floor('requests closing hundreds of CHILD_SAs whose copies were answered identically', c['mass_delete.copies_answered_identically'], 1)
     ck.floor('answered exchanges on one long-lived IKE_SA', c['long_lived.exchanges'], 250)
     ck.floor('requests of that IKE_SA delivered twice', c['long_lived.requests_delivered_twice'], 30)
     ck.floor('replays arriving more than 20 s (virtual) after the original', c['late_replays_after_more_than_20_s'], 300)
